@@ -1,13 +1,36 @@
 package main
 
-import "go/ast"
+import (
+	"go/ast"
+	"sort"
+)
 
 type extraFacts struct {
 	lean string
 	json map[string]interface{}
 }
 
-// extractMore: further tables, added property by property.
+// factFn contributes Lean `def`s (text appended inside `namespace Arrai.Facts.Generated`) and JSON entries.
+type factFn func(repo string, pkgs map[string][]*ast.File) (lean string, js map[string]interface{})
+
+var factFns = map[string]factFn{}
+
+// registerFacts is called from init() of per-property files facts_cXX.go (one file per property).
+func registerFacts(name string, f factFn) { factFns[name] = f }
+
 func extractMore(repo string, pkgs map[string][]*ast.File) extraFacts {
-	return extraFacts{lean: "", json: map[string]interface{}{}}
+	names := make([]string, 0, len(factFns))
+	for n := range factFns {
+		names = append(names, n)
+	}
+	sort.Strings(names)
+	out := extraFacts{json: map[string]interface{}{}}
+	for _, n := range names {
+		l, j := factFns[n](repo, pkgs)
+		out.lean += "/- facts: " + n + " -/\n" + l + "\n"
+		for k, v := range j {
+			out.json[k] = v
+		}
+	}
+	return out
 }
